@@ -307,7 +307,10 @@ def run(eng, ctx, with_socket=True):
     ints = [e for e in se.effects if e.kind == "call" and e.term[2] == ("builtin", "int") and e.loops]
     for e in ints:
         a = e.term[3]
-        ok = len(a) == 2 and a[1] == ("const", 16) and a[0][0] == "call" and a[0][2][0] == "attr" and a[0][2][2] == "strip" and a[0][2][1] in [c.term for c in consumes]
+        cterms_ = [c.term for c in consumes]
+        ok = len(a) == 2 and a[1] == ("const", 16) and a[0][0] == "call" and a[0][2][0] == "attr" and a[0][2][2] == "strip" and a[0][2][1] in cterms_
+        # int() ignores surrounding ASCII whitespace itself: the size line with or without its CRLF is the same numeral
+        ok = ok or (len(a) == 2 and a[1] == ("const", 16) and (a[0] in cterms_ or (a[0][0] == "slice" and a[0][1] in cterms_ and a[0][2] in (("const", None), ("const", 0)) and a[0][3] in (("const", -2), ("const", -1), ("const", None)) and a[0][4] == ("const", None))))
         ctx.check(ok, "C12.D5", dq, norm(e.node), expected="int(<size line>.strip(), 16)", found=show(e.term)[:80], **eng.loc(f, e.node))
     ctx.instance("size parses", len(ints), 1)
     want_w = {flags["ENCODE_GZIP"]: 15 | 16, flags["ENCODE_COMPRESS"]: 15, flags["ENCODE_DEFLATE"]: -15}
